@@ -36,6 +36,8 @@ def check_case(case):
     raise Violation('rejected:%s:%s' % (out.stage, core.exc_bucket(out.exc)),
                     '%s raised %r' % (out.stage, out.exc))
   labels.append('returned')
+  if out.batched:
+    labels.append('calibration_samples_batched')
   return core.result(bool(feats & G.INTERACTION), labels)
 
 
